@@ -158,6 +158,8 @@ class set_impl {
   void swap(self_type &s) {
     m_comm.barrier();
     m_local_set.swap(s.m_local_set);
+    // No rank may use either container before every rank has swapped.
+    m_comm.cf_barrier();
   }
 
   typename ygm::ygm_ptr<self_type> get_ygm_ptr() const { return pthis; }
